@@ -1,5 +1,12 @@
-(* Executable model of include/nstd/Buffer.hpp (after the repairs fixes/C08/01..09), method by
+(* Executable model of include/nstd/Buffer.hpp (after the repairs fixes/C08/01..13), method by
    method and branch by branch.  No proofs in this file.
+
+   Sizes.  Every usize argument chosen by the caller (constructor capacity, resize, reserve,
+   removeFront, removeBack) is an [N]; the two sums the code forms in usize arithmetic
+   (capacity + 1 before every new[], old size + size in append / prepend) are written with their
+   wrap-around ([succ_usize], [add_usize]).  new[] fails ([AllocFail]) for a request above
+   [alloc_limit] = PTRDIFF_MAX and succeeds otherwise.  Offsets into and lengths of existing
+   memory stay [nat].
 
    Memory.  An owned allocation [new char[n]] is a list of n cells, [None] = uninitialised.
    Foreign memory handed to attach() is an immutable byte list (the model refuses every
@@ -12,12 +19,12 @@
                never read or written except by zero-length copies
    [capf] is the [_capacity] member, kept separately from the real size of the allocation exactly
    as in the code.  Every access goes through rd/wr with bounds; an access outside yields Err. *)
-From Coq Require Import ZArith List Bool Arith Lia.
+From Coq Require Import ZArith NArith List Bool Arith Lia.
 From Common Require Import ListAux.
 From Buffer Require Import BufferSpec.
 Import ListNotations.
 
-Inductive err := OutOfBounds | WriteForeign | Overlap | BadState | BadArg.
+Inductive err := OutOfBounds | WriteForeign | Overlap | BadState | BadArg | AllocFail.
 Inductive res (A : Type) := Ok (a : A) | Err (e : err).
 Arguments Ok {A} a.
 Arguments Err {A} e.
@@ -34,7 +41,27 @@ Definition slice {A} (l : list A) (off n : nat) : list A := firstn n (skipn off 
 Definition splice {A} (l : list A) (off : nat) (d : list A) : list A :=
   firstn off l ++ d ++ skipn (off + length d) l.
 
-Definition new_array (n : nat) : alloc := repeat None n.            (* new char[n] *)
+Definition new_array (n : nat) : alloc := repeat None n.            (* the block new char[n] returns *)
+
+(* ---- usize arithmetic and operator new[] --------------------------------------------------- *)
+
+Definition usize_max : N := 18446744073709551615.
+Definition succ_usize (c : N) : N := if (c =? usize_max)%N then 0%N else (c + 1)%N.       (* c + 1 *)
+Definition add_usize (a b : N) : N := ((a + b) mod (usize_max + 1))%N.                    (* a + b *)
+Definition alloc_limit : N := max_bytes.
+
+(* new char[req]: a request for 0 bytes succeeds *)
+Definition new_bytes (req : N) : res alloc :=
+  if (req <=? alloc_limit)%N then Ok (new_array (N.to_nat req)) else Err AllocFail.
+
+(* Buffer::allocate(capacity) (fixes/C08/10): capacity + 1 bytes; when that sum wraps to 0 the
+   request is capacity itself, which cannot be satisfied *)
+Definition allocate (c : N) : res alloc :=
+  let s := succ_usize c in
+  new_bytes (if (s =? 0)%N then c else s).
+
+(* what every allocation site did before: new char[capacity + 1] *)
+Definition allocate_wrapping (c : N) : res alloc := new_bytes (succ_usize c).
 
 Definition rd (a : alloc) (off n : nat) : res (list cell) :=
   if off + n <=? length a then Ok (slice a off n) else Err OutOfBounds.
@@ -71,13 +98,15 @@ Definition terminate_if_owned (b : buf) : res buf :=                            
 
 Definition default_ (self : nat) : buf := mkbuf None (BCap self) 0 0 0.
 
-Definition ctor_cap (n : nat) : res buf :=
-  set_terminator (mkbuf (Some (new_array (n + 1))) BOwn 0 0 n).
+Definition ctor_cap (n : N) : res buf :=
+  do a0 <- allocate n;
+  set_terminator (mkbuf (Some a0) BOwn 0 0 (N.to_nat n)).
 
 (* Buffer(const byte*, usize) and, with d = the other's window, Buffer(const Buffer&) *)
 Definition ctor_data (d : list cell) : res buf :=
   let n := length d in
-  do a <- wr (new_array (n + 1)) 0 d;
+  do a0 <- allocate (N.of_nat n);
+  do a <- wr a0 0 d;
   set_terminator (mkbuf (Some a) BOwn 0 n n).
 
 (* ---- attach ---------------------------------------------------------------------------- *)
@@ -96,10 +125,29 @@ Definition copy_in (b : buf) (d : list cell) : res buf :=
 Definition assign_ (b : buf) (d : list cell) : res buf :=
   let n := length d in
   if capf b <? n then
-    copy_in (mkbuf (Some (new_array (n + 1))) (wb b) (start b) (stop b) n) d
+    do a0 <- allocate (N.of_nat n);
+    copy_in (mkbuf (Some a0) (wb b) (start b) (stop b) n) d
   else match own b with
        | None => Ok (mkbuf None (wb b) (start b) (start b) (capf b))
        | Some _ => copy_in b d
+       end.
+
+(* b.assign((const byte* )b + off, n): the source lies inside the window.  In place the bytes are
+   moved (Memory::move, fixes/C08/11).  The reallocating branch releases the old block before it
+   copies; a window never holds more than capacity bytes, so with a source inside the window that
+   branch is taken only by a non-owning Buffer, whose attached bytes stay where they are. *)
+Definition assign_at (b : buf) (off n : nat) : res buf :=
+  if capf b <? n then
+    match own b with
+    | Some _ => Err BadState
+    | None =>
+        do a0 <- allocate (N.of_nat n);
+        do d <- rd_win b (start b + off) n;
+        copy_in (mkbuf (Some a0) (wb b) (start b) (stop b) n) d
+    end
+  else match own b with
+       | None => Ok (mkbuf None (wb b) (start b) (start b) (capf b))
+       | Some _ => do d <- rd_win b (start b + off) n; copy_in b d
        end.
 
 (* ---- prepend --------------------------------------------------------------------------- *)
@@ -111,13 +159,14 @@ Definition headroom (b : buf) (n : nat) : res bool :=
   | Some _ => match wb b with BOwn => Ok (n <=? start b) | _ => Err BadState end
   end.
 
-Definition prepend_realloc (b : buf) (d : list cell) : res buf :=
+Definition prepend_realloc (b : buf) (d : list cell) (req : N) : res buf :=
   let n := length d in
-  let req := n + size b in
-  do n1 <- wr (new_array (req + 1)) 0 d;
+  do a0 <- allocate req;
+  let r := N.to_nat req in
+  do n1 <- wr a0 0 d;
   do old <- rd_win b (start b) (size b);
   do n2 <- wr n1 n old;
-  set_terminator (mkbuf (Some n2) BOwn 0 req req).
+  set_terminator (mkbuf (Some n2) BOwn 0 r r).
 
 Definition prepend_ (b : buf) (d : list cell) : res buf :=
   let n := length d in
@@ -125,26 +174,59 @@ Definition prepend_ (b : buf) (d : list cell) : res buf :=
   if hr then
     wr_win (mkbuf (own b) (wb b) (start b - n) (stop b) (capf b)) (start b - n) d
   else
-    let req := n + size b in
+    let req := add_usize (N.of_nat n) (N.of_nat (size b)) in     (* requiredCapacity = size + oldSize *)
     match own b with
     | Some a =>
-        if req <=? capf b then
+        if (req <=? N.of_nat (capf b))%N then
           do old <- rd a (start b) (size b);            (* Memory::move(buffer + size, bufferStart, oldSize) *)
           do a1 <- wr a n old;
           do a2 <- wr a1 0 d;
-          set_terminator (mkbuf (Some a2) BOwn 0 req (capf b))
-        else prepend_realloc b d
-    | None => prepend_realloc b d
+          set_terminator (mkbuf (Some a2) BOwn 0 (N.to_nat req) (capf b))
+        else prepend_realloc b d req
+    | None => prepend_realloc b d req
+    end.
+
+Definition disjoint (p q n : nat) : bool := (n =? 0) || (p + n <=? q) || (q + n <=? p).
+
+(* b.prepend((const byte* )b + off, n).  Head-room and reallocation read the source where it is
+   (the old block is released after the copies).  The in-place shift moves the window first; the
+   repaired code (fixes/C08/13) follows a source that pointed into the window. *)
+Definition prepend_at (b : buf) (off n : nat) : res buf :=
+  do hr <- headroom b n;
+  if hr then
+    do d <- rd_win b (start b + off) n;
+    if disjoint (start b + off) (start b - n) n then
+      wr_win (mkbuf (own b) (wb b) (start b - n) (stop b) (capf b)) (start b - n) d
+    else Err Overlap
+  else
+    let req := add_usize (N.of_nat n) (N.of_nat (size b)) in
+    match own b with
+    | Some a =>
+        if (req <=? N.of_nat (capf b))%N then
+          do old <- rd a (start b) (size b);
+          do a1 <- wr a n old;
+          let src := if off <? size b then n + off else start b + off in
+          do d <- rd a1 src n;
+          if disjoint src 0 n then
+            do a2 <- wr a1 0 d;
+            set_terminator (mkbuf (Some a2) BOwn 0 (N.to_nat req) (capf b))
+          else Err Overlap
+        else do d <- rd_win b (start b + off) n; prepend_realloc b d req
+    | None => do d <- rd_win b (start b + off) n; prepend_realloc b d req
     end.
 
 (* ---- resize / append ------------------------------------------------------------------- *)
 
-Definition resize_ (b : buf) (n : nat) : res buf :=
-  if capf b <? n then
+Definition resize_ (b : buf) (sz : N) : res buf :=
+  if (N.of_nat (capf b) <? sz)%N then
+    do a0 <- allocate sz;
+    let n := N.to_nat sz in
     do old <- rd_win b (start b) (Nat.min (size b) n);
-    do n1 <- wr (new_array (n + 1)) 0 old;
+    do n1 <- wr a0 0 old;
     set_terminator (mkbuf (Some n1) BOwn 0 n n)
-  else match own b with
+  else
+  let n := N.to_nat sz in
+  match own b with
        | Some a =>
            match wb b with
            | BOwn =>
@@ -161,20 +243,33 @@ Definition resize_ (b : buf) (n : nat) : res buf :=
 
 Definition append_ (b : buf) (d : list cell) : res buf :=
   let n := length d in
-  do b1 <- resize_ b (size b + n);
+  do b1 <- resize_ b (add_usize (N.of_nat (size b)) (N.of_nat n));      (* bufferEnd - bufferStart + size *)
   do b2 <- wr_win b1 (stop b1 - n) d;
   terminate_if_owned b2.
 
 (* b.append(b): the source is read after the resize, through the updated pointers *)
-Definition disjoint (p q n : nat) : bool := (n =? 0) || (p + n <=? q) || (q + n <=? p).
 Definition append_self (b : buf) : res buf :=
   let n := size b in
-  do b1 <- resize_ b (n + n);
+  do b1 <- resize_ b (add_usize (N.of_nat n) (N.of_nat n));
   do d <- rd_win b1 (start b1) n;
   if disjoint (start b1) (stop b1 - n) n then
     do b2 <- wr_win b1 (stop b1 - n) d;
     terminate_if_owned b2
   else Err Overlap.
+
+(* b.append((const byte* )b + off, n): resize may move the window or release the old block; the
+   repaired code (fixes/C08/12) finds a source that pointed into the window again afterwards.  A
+   source that is not inside the window is the old bufferEnd with n = 0: nothing is read. *)
+Definition append_at (b : buf) (off n : nat) : res buf :=
+  let inside := off <? size b in
+  do b1 <- resize_ b (add_usize (N.of_nat (size b)) (N.of_nat n));
+  if inside then
+    do d <- rd_win b1 (start b1 + off) n;
+    if disjoint (start b1 + off) (stop b1 - n) n then
+      do b2 <- wr_win b1 (stop b1 - n) d;
+      terminate_if_owned b2
+    else Err Overlap
+  else if n =? 0 then terminate_if_owned b1 else Err BadState.
 
 (* ---- removeFront / removeBack ---------------------------------------------------------- *)
 
@@ -186,25 +281,26 @@ Definition reset_empty (self : nat) (b : buf) : buf :=
   end.
 
 (* the repaired code compares sizes, not pointers: if(size >= (usize)(bufferEnd - bufferStart)) *)
-Definition remove_front (self : nat) (b : buf) (n : nat) : res buf :=
-  if size b <=? n then terminate_if_owned (reset_empty self b)
-  else Ok (mkbuf (own b) (wb b) (start b + n) (stop b) (capf b)).
+Definition remove_front (self : nat) (b : buf) (n : N) : res buf :=
+  if (N.of_nat (size b) <=? n)%N then terminate_if_owned (reset_empty self b)
+  else Ok (mkbuf (own b) (wb b) (start b + N.to_nat n) (stop b) (capf b)).
 
-Definition remove_back (self : nat) (b : buf) (n : nat) : res buf :=
-  let b1 := if size b <=? n then reset_empty self b
-            else mkbuf (own b) (wb b) (start b) (stop b - n) (capf b) in
+Definition remove_back (self : nat) (b : buf) (n : N) : res buf :=
+  let b1 := if (N.of_nat (size b) <=? n)%N then reset_empty self b
+            else mkbuf (own b) (wb b) (start b) (stop b - N.to_nat n) (capf b) in
   terminate_if_owned b1.
 
 (* ---- reserve / clear / free ------------------------------------------------------------ *)
 
-Definition reserve_ (b : buf) (c : nat) : res buf :=
-  if c <=? capf b then Ok b
+Definition reserve_ (b : buf) (c : N) : res buf :=
+  if (c <=? N.of_nat (capf b))%N then Ok b
   else
     let n := size b in
-    let c' := if c <? n then n else c in
+    let c' := if (c <? N.of_nat n)%N then N.of_nat n else c in
+    do a0 <- allocate c';
     do old <- rd_win b (start b) n;
-    do n1 <- wr (new_array (c' + 1)) 0 old;
-    set_terminator (mkbuf (Some n1) BOwn 0 n c').
+    do n1 <- wr a0 0 old;
+    set_terminator (mkbuf (Some n1) BOwn 0 n (N.to_nat c')).
 
 Definition clear_ (b : buf) : res buf :=
   match own b with
@@ -224,7 +320,11 @@ Definition get (w : world) (v : nat) : res buf :=
 Definition ret1 (w : world) (v : nat) (r : res buf) : res (world * option bool) :=
   do b <- r; Ok (upd v b w, None).
 
+(* the pointer argument b + off with n bytes behind it points at bytes b exposes *)
+Definition at_ok (b : buf) (off n : nat) : bool := off + n <=? size b.
+
 Definition step (w : world) (o : op) : res (world * option bool) :=
+  if negb (data_ok o) then Err BadArg else      (* a byte range of more than max_bytes bytes is not an input *)
   match o with
   | ONew => Ok (w ++ [default_ (length w)], None)
   | ONewCap n => do b <- ctor_cap n; Ok (w ++ [b], None)
@@ -258,6 +358,9 @@ Definition step (w : world) (o : op) : res (world * option bool) :=
       do b <- get w v; do s <- get w x;
       do d <- win b; do e <- win s;
       Ok (w, q_eq d e)
+  | OAppendAt v off n => do b <- get w v; if at_ok b off n then ret1 w v (append_at b off n) else Err BadArg
+  | OAssignAt v off n => do b <- get w v; if at_ok b off n then ret1 w v (assign_at b off n) else Err BadArg
+  | OPrependAt v off n => do b <- get w v; if at_ok b off n then ret1 w v (prepend_at b off n) else Err BadArg
   end.
 
 Fixpoint run (w : world) (ops : list op) : res (world * list (option bool)) :=
